@@ -59,12 +59,24 @@ public:
              , int
              )
     {
+        // guard from errors in libpng: the bookmark set while the header was read is stale by now
+        if (setjmp( png_jmpbuf( this->get_struct() )))
+        {
+            io_error("png is invalid");
+        }
+
         read_scanline( dst );
     }
 
     /// Skip over a scanline.
     void skip( byte_t* dst, int )
     {
+        // guard from errors in libpng
+        if (setjmp( png_jmpbuf( this->get_struct() )))
+        {
+            io_error("png is invalid");
+        }
+
         read_scanline( dst );
     }
 
@@ -75,6 +87,12 @@ private:
 
     void initialize()
     {
+        // guard from errors in the following functions
+        if (setjmp( png_jmpbuf( this->get_struct() )))
+        {
+            io_error("png is invalid");
+        }
+
         // Now it's time for some transformations.
 
         if( little_endian() )
